@@ -36,6 +36,10 @@ var c05Prelude = []string{
 
 var c05Vals = []string{"a", "m", "s", "b", "f", "e", "u", "im", "imm", "fl", "ch", "t", "n", "1", "0", "-1", "\"x\"", "[]", "{}", "len", "inarr", "9223372036854775807",
 	"-9223372036854775807", "(-9223372036854775807 - 1)", "(fl * 1e308 * 10.0)", "(0.0 / (fl - fl))", "\"\"", "\"%d %s %v\"", "bytes(0)", "'\\x00'", "time(0)", "[a, [a, [a]]]", "{k: {k: {k: m}}}", "error(e)", "immutable([m, a])", "2147483648", "-2147483649", "1.5e300", "9007199254740993", "9007199254740992", "0.5", "9.007199254740993e15"}
+// values that make range()/bytes() request gigabytes in one call
+var c05Huge = map[string]bool{"9223372036854775807": true, "-9223372036854775807": true, "(-9223372036854775807 - 1)": true, "2147483648": true, "-2147483649": true,
+	"9007199254740993": true, "9007199254740992": true, "(fl * 1e308 * 10.0)": true, "1.5e300": true, "9.007199254740993e15": true}
+
 var c05BinOps = []string{"+", "-", "*", "/", "%", "&", "|", "^", "<<", ">>", "<", ">", "<=", ">=", "&^", "==", "!=", "&&", "||"}
 
 type c05Idiom struct {
@@ -110,7 +114,7 @@ func c05Idioms() []c05Idiom {
 			if bn == "range" || bn == "bytes" {
 				// keep requested sizes bounded (unbounded single allocations are outside the claim)
 				for i := range args {
-					if args[i] == "9223372036854775807" {
+					if c05Huge[args[i]] {
 						args[i] = "n"
 					}
 				}
